@@ -150,7 +150,8 @@ PROPS = {
     },
     "C14": {
         "level": "exploration",
-        "stages": [hist("parse", "parse::parse_c14", 20000, 600000)],
+        "stages": [hist("parse", "parse::parse_c14", 20000, 600000),
+                   {"name": "miri", "kind": "miri", "test": "parse::parse_c14", "cases": {"quick": 0, "thorough": 40}, "tiers": ["thorough"], "shards": 8}],
         "rule": "case = one text given to the real parser under catch_unwind and to the reference reading (harness/drivers/parse.rs): rendered random rule sets under all formatting choices, single and double corruptions (deleted line, inserted blank line or ':', duplicated ':', truncation with/without newline, extra indentation, file/directory clash, tabs-only line), token soup, line soup, bundles nested up to 60 levels, 3000-token soup; every fifth case also goes through parse_all with a second file; distinct by text; non-trivial when the text has at least one complete section",
         "floor": {"quick": 10000, "thorough": 300000},
         "assumptions": ["the reference reading in harness/drivers/parse.rs is the documented format", "bundle nesting <= 60 levels, inputs <= ~10 KB"],
@@ -158,7 +159,8 @@ PROPS = {
     "C15": {
         "level": "exploration",
         "stages": [hist("hash", "hashd::hash_c15", 150, 2000),
-                   {"name": "hashlib", "kind": "python", "module": "offline_oracles", "oracle": "hash", "source_stage": "hash"}],
+                   {"name": "hashlib", "kind": "python", "module": "offline_oracles", "oracle": "hash", "source_stage": "hash"},
+                   {"name": "miri", "kind": "miri", "test": "hashd::hash_c15", "cases": {"quick": 0, "thorough": 8}, "tiers": ["thorough"], "shards": 4, "env": {"VERIF_NOHASH": "1"}}],
         "rule": "case = one file content hashed by ruler through short-read handles at several paths/ages (every length 0..1100, boundary and random lengths up to 300 KB / 1.1 MB), one 256-bit value round trip (edge values, 62^k and neighbours, leading-zero digits, random), one string offered to the decoder (every length 0..60, foreign characters, the 200 smallest values above 2^256-1, random 43-character strings judged by a reference decoder), or one directory tree with a single-point change; the exported cases are re-checked with Python hashlib; distinct by value",
         "floor": {"quick": 2000, "thorough": 20000},
         "assumptions": ["oracle: Python hashlib.sha256 and an independent base-62 implementation (pytools/bincode_reader.py), plus the harness's own SHA-256 in-process"],
@@ -166,7 +168,8 @@ PROPS = {
     "C16": {
         "level": "exploration",
         "stages": [dict(hist("codec", "codec::codec_c16", 14, 200), crash_is_violation=True),
-                   {"name": "layout", "kind": "python", "module": "offline_oracles", "oracle": "layout", "source_stage": "codec"}],
+                   {"name": "layout", "kind": "python", "module": "offline_oracles", "oracle": "layout", "source_stage": "codec"},
+                   {"name": "miri", "kind": "miri", "test": "codec::codec_c16", "cases": {"quick": 0, "thorough": 2}, "tiers": ["thorough"], "shards": 8, "env": {"VERIF_MAX_FLIPS": "48", "VERIF_PREFIX_STEP": "5"}}],
         "rule": "case = one (state-file instance, damage) pair: write/read round trip through ruler's own writer and reader on a fresh handle, every strict prefix, single bit flips (every position of small images), random byte strings; a panic or a process abort is a violation, an accepted prefix is a violation; exported images are decoded by an independent bincode reader; distinct by (image, damage)",
         "floor": {"quick": 10000, "thorough": 200000},
         "assumptions": ["instances: 0..50 entries, 1..8 targets; hashes are arbitrary 256-bit values made through the text form"],
